@@ -192,6 +192,12 @@ impl DecodeFrom for String {
     fn decode_from(decoder: &mut Decoder<impl InputSource>) -> Result<Self> {
         // Decode how many bytes are in this string, and attempt to allocate a vec with the necessary capacity.
         let length = decoder.decode_varuint()?;
+        // Ensure the buffer actually holds this many bytes _before_ allocating memory for them.
+        let remaining = decoder.remaining();
+        if remaining < length {
+            let error = crate::ErrorKind::UnexpectedEob { requested: length, remaining };
+            return Err(error.into());
+        }
         let mut vector = Vec::new();
         vector.try_reserve_exact(length)?;
 
@@ -219,7 +225,8 @@ where
         // Decode how many elements are in this sequence, and attempt to allocate a vec with the necessary capacity.
         let length = decoder.decode_varuint()?;
         let mut vector = Vec::new();
-        vector.try_reserve_exact(length)?;
+        // Every element occupies at least one byte, so there can't be more elements than remaining bytes.
+        vector.try_reserve_exact(core::cmp::min(length, decoder.remaining()))?;
 
         // Decode each element, and push them into the vector, one by one.
         for _ in 0..length {
@@ -245,7 +252,8 @@ where
         // Decode how many entries are in this dictionary, and attempt to allocate a map with the necessary capacity.
         let length = decoder.decode_varuint()?;
         let mut map = HashMap::new();
-        map.try_reserve(length)?;
+        // Every entry occupies at least one byte, so there can't be more entries than remaining bytes.
+        map.try_reserve(core::cmp::min(length, decoder.remaining()))?;
 
         // Decode 'length'-many entries into the map.
         decode_dictionary_entries!(map, decoder, length);
